@@ -304,7 +304,7 @@ pub fn c03(n: usize, start: usize, len: usize, deep: bool) -> Vec<Case> {
     }
     for a in 0..=len {
         for b in a..=len {
-            for k in 0..=(b - a) as u8 {
+            for k in 0..=(b - a) as u16 {
                 for t in [Step::Nth(k), Step::NthBack(k), Step::Skip(k), Step::StepBy(k)] {
                     out.push(base(n, start, len, vec![Op::Drain(canonical(a, b), vec![t], End::Drop)]));
                     out.push(base(n, start, len, vec![Op::Drain(canonical(a, b), vec![Step::NextBack, t, Step::Next], End::Drop)]));
@@ -328,7 +328,7 @@ pub fn c03(n: usize, start: usize, len: usize, deep: bool) -> Vec<Case> {
         out.push(base(n, start, len, vec![Op::IntoIter(vec![st])]));
         out.push(base(n, start, len, vec![Op::IntoIter(vec![Step::Next, st, Step::NextBack])]));
     }
-    for k in 0..=(len + 1) as u8 {
+    for k in 0..=(len + 1) as u16 {
         out.push(base(n, start, len, vec![Op::IntoIter(vec![Step::Nth(k)])]));
         out.push(base(n, start, len, vec![Op::IntoIter(vec![Step::NthBack(k)])]));
     }
@@ -552,7 +552,7 @@ pub fn c08(n: usize, start: usize, len: usize) -> Vec<Case> {
     // the iterator methods that have default implementations today (a hand-written override must
     // stay correct): nth, nth_back, count, last, fold, rev at every offset
     for kind in [IterKind::Iter, IterKind::IterMut, IterKind::Range(RangeSpec::full()), IterKind::RangeMut(RangeSpec::full())] {
-        for k in 0..=(len + 1) as u8 {
+        for k in 0..=(len + 1) as u16 {
             for pre in [vec![], vec![Step::Next], vec![Step::NextBack], vec![Step::Next, Step::NextBack]] {
                 for tail in [vec![Step::Nth(k), Step::Next, Step::NextBack], vec![Step::NthBack(k), Step::NextBack, Step::Next], vec![Step::Nth(k), Step::NthBack(k)]] {
                     let mut s = pre.clone();
@@ -571,7 +571,7 @@ pub fn c08(n: usize, start: usize, len: usize) -> Vec<Case> {
             }
         }
     }
-    for k in 0..=(len + 1) as u8 {
+    for k in 0..=(len + 1) as u16 {
         for pre in [vec![], vec![Step::Next], vec![Step::NextBack]] {
             for t in [Step::Nth(k), Step::NthBack(k)] {
                 let mut s = pre.clone();
@@ -628,7 +628,7 @@ pub fn c09(n: usize, start: usize, len: usize, end: End) -> Vec<Case> {
             if end == End::Forget {
                 // forgetting after the skipping consumers, including skips that run past either end of what is left
                 for pre in [vec![], vec![Step::Next], vec![Step::NextBack]] {
-                    for k in 0..=(b - a + 1) as u8 {
+                    for k in 0..=(b - a + 1) as u16 {
                         for t in [vec![Step::Nth(k)], vec![Step::NthBack(k)], vec![Step::Nth(k), Step::NextBack], vec![Step::NthBack(k), Step::Next]] {
                             let mut s = pre.clone();
                             s.extend(t);
@@ -651,7 +651,7 @@ pub fn c09(n: usize, start: usize, len: usize, end: End) -> Vec<Case> {
                 // the adaptor-style consumers (default implementations today): nth, nth_back, count,
                 // last, fold/collect, rev, skip, step_by - alone and after a step from either end
                 for pre in [vec![], vec![Step::Next], vec![Step::NextBack]] {
-                    for k in 0..=(b - a + 1) as u8 {
+                    for k in 0..=(b - a + 1) as u16 {
                         for t in [vec![Step::Nth(k)], vec![Step::NthBack(k)], vec![Step::Nth(k), Step::NextBack], vec![Step::NthBack(k), Step::Next], vec![Step::Skip(k)], vec![Step::StepBy(k)]] {
                             let mut s = pre.clone();
                             s.extend(t);
@@ -683,7 +683,7 @@ pub fn c11(n: usize, start: usize, len: usize) -> Vec<Case> {
     ops.push(Op::IterScript(IterKind::Iter, vec![]));
     ops.push(Op::IterScript(IterKind::IterMut, vec![]));
     ops.push(Op::IntoIter(vec![]));
-    for st in [Step::Nth(255), Step::NthBack(255), Step::Skip(255), Step::StepBy(255), Step::Nth(len as u8), Step::NthBack(len as u8 + 1)] {
+    for st in [Step::Nth(255), Step::NthBack(255), Step::Skip(255), Step::StepBy(255), Step::Nth(u16::MAX), Step::Skip(u16::MAX), Step::Nth(len as u16), Step::NthBack(len as u16 + 1)] {
         for k in [IterKind::Iter, IterKind::IterMut, IterKind::Range(canonical(0, len)), IterKind::RangeMut(canonical(0, len))] {
             ops.push(Op::IterScript(k, vec![st.clone(), Step::Next]));
         }
@@ -866,6 +866,18 @@ pub fn large(n: usize, start: usize, len: usize) -> Vec<Case> {
         }
     }
     ops.push(Op::Drain(canonical(0, len + 1), vec![], End::Drop));
+    // long hops (nth / nth_back / skip / step_by with counts around 32, 64, the wrap point and the length)
+    let mut hops: Vec<u16> = pos.iter().filter(|p| **p >= 3 && **p <= u16::MAX as usize).map(|p| *p as u16).collect();
+    hops.push(u16::MAX);
+    for k in hops {
+        for t in [Step::Nth(k), Step::NthBack(k), Step::Skip(k), Step::StepBy(k)] {
+            ops.push(Op::IterScript(IterKind::Iter, vec![t.clone(), Step::Next, Step::NextBack]));
+            ops.push(Op::IterScript(IterKind::Iter, vec![Step::Next, Step::NextBack, t.clone(), Step::Next]));
+            ops.push(Op::IterScript(IterKind::IterMut, vec![Step::NextBack, t.clone(), Step::Next]));
+            ops.push(Op::IntoIter(vec![t.clone(), Step::Next, Step::NextBack]));
+            ops.push(Op::Drain(RangeSpec::full(), vec![Step::Next, t.clone(), Step::NextBack], End::Drop));
+        }
+    }
     ops.push(Op::IterScript(IterKind::Iter, vec![Step::Next, Step::NextBack, Step::Nth(30), Step::NthBack(31), Step::Fork, Step::Search]));
     ops.push(Op::IterScript(IterKind::IterMut, vec![Step::NextBack, Step::Nth(31), Step::NthBack(30), Step::RevCollect]));
     ops.push(Op::IntoIter(vec![Step::Next, Step::NextBack, Step::Nth(3), Step::Fork, Step::RevCollect]));
